@@ -195,3 +195,6 @@ BOUNDS = ["format_agp on assemblies of <= 3 scaffolds x <= 5 rows with unbounded
 OUTSIDE = ["assemblies with more rows/scaffolds than the templates (format_agp is one loop with a running position)",
            "FASTA record length vs AGP object end for pretext-to-asm output is decided in C03's write_assembly condition"]
 TRUSTED = ["CrossHair/z3", "integer tokens for str() of coordinates (loader)", "Gap rows built without functools.cache"]
+
+TECHNIQUE = ("CrossHair + z3 with integer tokens: the text written by format_agp is read back and the AGP validity conditions asserted over symbolic coordinates; histories of in-place edits; FASTA-derived and remapper-derived assemblies")
+LEVEL_TEXT = ("Validity of the written AGP is asserted for all coordinate values of each template, including assemblies produced by the indexer (every buffer size) and by write_assembly.")
